@@ -124,6 +124,11 @@ def run(chk: Check):
             check_dir(chk, c, kind, [60] * n, chk.seed + i, "equal", record=(i % 7 == 0))
             if i % 4 == 0 and n > 1:
                 check_dir(chk, c, kind, [60 + 7 * j for j in range(n)], chk.seed + i, "unequal")
+            # halves longer than one read block of the transcoder (2048 frames): the channels are then read in turns, block by block
+            if i % 6 == 1 and n > 1:
+                check_dir(chk, c, kind, [3000] * n, chk.seed + i, "long-equal")
+            if i % 12 == 5 and n > 1:
+                check_dir(chk, c, kind, [2049 + 500 * j for j in range(n)], chk.seed + i, "long-unequal")
     # trace validation of the recorded export executions: every added sample written exactly once, no path twice
     rej = traces.validate(chk, "ExportTrace", TRACE_EVENTS, f"trace validation: export-level protocol of {len(TRACE_IDS)} recorded exports")
     for rj in rej:
